@@ -35,7 +35,6 @@ import (
 	"golang.org/x/telemetry/godev/internal/middleware"
 	"golang.org/x/telemetry/godev/internal/storage"
 	tconfig "golang.org/x/telemetry/internal/config"
-	"golang.org/x/telemetry/internal/configstore"
 	"golang.org/x/telemetry/internal/telemetry"
 	"golang.org/x/telemetry/internal/upload"
 	"golang.org/x/telemetry/internal/verifsim/hlib"
@@ -824,13 +823,12 @@ func scenarioC11(c *hlib.RunCtx) *hlib.Violation {
 	saveReader := rand.Reader
 	rand.Reader = xr{t, []float64{0.25, 0.5, mgen.Dyadic(1<<19 + 1), 0.75, 0}} // (0: the entropy source returns a power of two)
 	defer func() { rand.Reader = saveReader }()
-	configstore.VerifDownload = func(version string, env []string) (*telemetry.UploadConfig, string, error) {
+	mgen.ServeConfig(s, c.Dir, nil, func(version string, env []string) (*telemetry.UploadConfig, string, error) {
 		js, _ := json.Marshal(cfg.Real)
 		var cp telemetry.UploadConfig
 		json.Unmarshal(js, &cp)
 		return &cp, "v0.1.0", nil
-	}
-	defer func() { configstore.VerifDownload = nil }()
+	})
 	var bodies [][]byte
 	s.Transport = func(r *simrt.Request) (int, error) {
 		path := r.URL[strings.Index(r.URL, "/upload/"):]
